@@ -122,6 +122,7 @@ pub fn site_name(site: u16) -> &'static str {
         100 => "op",
         101 => "send",
         102 => "recv",
+        103 => "hold",
         _ => "?",
     }
 }
